@@ -15,6 +15,7 @@ Theorem C02_transfer_sound : forall cfg k i ahead s s',
   ports cfg = [] -> bytes_ok s ->
   (i_mn i = PHA \/ i_mn i = PHP -> know_off_stack cfg k s) ->
   ind_legal i -> xfer_no_zp_y cfg k i ->
+  snd (transfer k i ahead) = false ->
   know_sound cfg k s -> steps_to cfg i s s' ->
   know_sound cfg (fst (transfer k i ahead)) s'.
 Proof. exact transfer_sound. Qed.
